@@ -16,7 +16,7 @@ CLAIMED = {
             "on, every call succeeds and get(k) = spec(k) for every byte-string key (C01_D_nonpruning, C01_D_pruning; premises: no "
             "collision among / size bound on the bodies the history writes); the same for histories that mix direct writes with squash_changes "
             "blocks, committed or aborted (C01_D_*_batched, by a simulation between the ScratchDB-backed batch trie and an exact plain trie). "
-            "Nested blocks and blocks with a failing write are tied by correspondence (implementation = D model = T model, evaluated in Coq).",
+            "Blocks opened on a batch trie (nested squash_changes; defect D4, repaired) are modelled and generated: database-level theorems C05_abort_nested / C05_commit_nested / C17_nested_*; that the enclosing batch trie is again the trie of the effective writes, and blocks with a failing write, are tied by correspondence (implementation = D model = T model, evaluated in Coq) and the dict oracle.",
             "Coq proof (nested induction on the trie; fold over histories) + vm_compute correspondence of the D-level state machine", "5/C01", ""),
     "C02": ("Theorems (closed, every history, every hash function): canonical-shape invariant, canonical tree unique for its contents, "
             "history independence of the root, blank root for the empty mapping, and trun ops = Yellow-Paper construction yp_tree of the "
@@ -37,7 +37,10 @@ CLAIMED = {
             "failing commit on a non-pruning trie keeps the root and every earlier entry; after a normal exit the outer trie is exactly the trie "
             "of the block's writes applied in order: pruning outer trie — counts and database stay exact (C05_commit_pruning); non-pruning — "
             "the new store represents the new tree, contains the old store, and every key it adds is a node of the FINAL tree, so no "
-            "intermediate-only node is added (C05_commit_nonpruning). Nested blocks: correspondence + reachable-set oracle.",
+            "intermediate-only node is added (C05_commit_nonpruning). A block opened on a batch trie: leaving it by an exception leaves the enclosing "
+            "batch trie exactly as it was (C05_abort_nested); its normal exit cannot fail, replays its buffer into the enclosing buffer and adopts "
+            "root and counts (C05_commit_nested, per-key effect C17_nested_commit); exactness afterwards: correspondence + reachable-set oracle. "
+            "Blocks are left by Exception subclasses, by a BaseException and by GeneratorExit, in plain contexts and while the caller handles an exception.",
             "Coq proof (ScratchDB wrapped-store invariance through every D-level function) + vm_compute correspondence with every abort point / failing commit write", "5/C05", ""),
     "C07": ("Theorems: on a sub-store every read gives the same result as on the complete store or a Missing* error naming a hash absent here "
             "and present there; reports are truthful (hash absent, correct root/key, prefix = exact nibble path to the reference); a failed "
@@ -52,7 +55,9 @@ CLAIMED = {
     "C08": ("Theorems (tree level, every canonical trie, every path): blank iff no key below; the node at a path is the canonical sub-trie; what "
             "a caller sees (incl. simulated nodes) is the annotation of THE canonical node for the keys below; partial-path fields; "
             "traverse_from composes; root_node. Database level: traverse and traverse_from refine the tree level (C08_traverse_refines, "
-            "C08_traverse_from_refines); run-time oracle: the Yellow-Paper description evaluated in Coq.",
+            "C08_traverse_from_refines); read accounting: the keys traverse_from looks up are at most one per child hop (C08_reads_one_per_hop) and are "
+            "everything it reads - on any database agreeing at those keys it returns the same result (C08_reads_only); the model's read list is "
+            "compared with reads counted through a proxy db. Run-time oracle: the Yellow-Paper description evaluated in Coq.",
             "Coq proof (structural induction, canonical uniqueness) + vm_compute correspondence + in-Coq specification oracle", "5/C08", ""),
     "C10": ("Theorems (tree level): items = contents, strictly ascending, each once; next(k) / next() are the strict successor / minimum by "
             "the mirrored _get_key_after / _get_next_key; nodes() preorder = ascending prefixes, each node exactly once and equal to "
@@ -108,7 +113,8 @@ CLAIMED = {
             "exhaustive up to a bound and random beyond, incl. a malformed stream; also Keccak-256 and RLP against eth_hash / rlp.",
             "Coq proof + exhaustive/random vm_compute correspondence", "5/C16", ""),
     "C17": ("Machine-checked theorems over the ScratchDB state-machine model for all wrapped stores, all operation lists, all keys, "
-            "both do_deletes values and abort at any position (C17_no_write_during, C17_read, C17_contains, C17_commit, C17_abort); "
+            "both do_deletes values and abort at any position (C17_no_write_during, C17_read, C17_contains, C17_commit, C17_abort); also for a "
+            "ScratchDB whose wrapped database is itself a ScratchDB (C17_nested_read, C17_nested_commit); "
             "model tied to trie/utils/db.py by differential runs with an independent last-action oracle.",
             "Coq proof by induction over the operation list + vm_compute correspondence against /repo",
             "5/C17", ""),
